@@ -493,6 +493,14 @@ def monitor(rp, script, out, tasks, crash, props):
                             viol.append(('C02', tag + 'wrong-gpu-amount', 'task %d: gpus %s, requested %d/16' % (uid, x[2], g)))
                         if x[3] != r['lfs'] or x[4] != r['mem']:
                             viol.append(('C02', tag + 'wrong-lfs-mem', str(x)))
+                    # the ranks of a placement hold DISTINCT cores: ranks * cores_per_rank cores in all
+                    seen_cores = {}
+                    for x in sl:
+                        for c in x[1]:
+                            if (x[0], c) in seen_cores:
+                                viol.append(('C02', tag + 'two-ranks-of-a-placement-share-a-core',
+                                             'task %d: core %d of node %d is in the slots of two of its ranks (%s)' % (uid, c, x[0], [list(y[1]) for y in sl if y[0] == x[0]])))
+                            seen_cores[(x[0], c)] = True
                     # a rank holds storage and memory only if its node had that much left when the placement was
                     # granted (what the tasks granted before hold on that node is taken from the monitor's own account)
                     if not has_app:
